@@ -1,7 +1,7 @@
 """C10 — pipeline property decided by the Lean oracle on generated crystals (see checks/pipe.py)."""
 from checks import pipe
 
-PROPS = [("Moyo.Props.C10", "Moyo/Props/C10.lean")]
+PROPS = [("Moyo.Props.C10", "Moyo/Props/C10.lean"), ("Moyo.Props.C03Stages", "Moyo/Props/C03Stages.lean")]
 
 
 def nontrivial(p, line):
@@ -9,9 +9,10 @@ def nontrivial(p, line):
 
 
 def run(tier, seed):
+    pipe.translate_s5()
     return pipe.run_property("C10", tier, seed, ['hallreq'], PROPS,
                              {"rule": 'Setting::HallNumber(h) for all 530 h on a crystal generated in that setting (own cell; re-described for every third h in quick, all in thorough), on a crystal of a neighbouring other type (mostly same arithmetic class), and out-of-range numbers {0,-5,531,i32::MAX,i32::MIN}; non-trivial = matching request on a non-P1 setting or a non-matching request'},
-                             nontrivial,
+                             nontrivial, stages=["s5"],
                              trusted=["premise validation of the generator (the generated crystal has exactly the generating group, symmetry gap >= 0.2 A) is a brute-force search in Rust, independent of moyo",
                                       "f64 rounding inside moyo is not modelled: the oracle judges the returned values in exact rational arithmetic",
                                       "the oracle's float code only orders candidate sites; every verdict is an exact test (Proofs/OracleSite.lean)"])
